@@ -249,10 +249,11 @@ class MultiLevelTransform(CompositeTransform):
             if not transforms:
                 identity = torch.eye(self.ndim, self.ndim + 1, device=self.device)
                 return identity.unsqueeze(0)
-            transform = transforms[0]
-            mat = as_homogeneous_matrix(transform.tensor())
-            for transform in transforms[1:]:
-                mat += as_homogeneous_matrix(transform.tensor())
+            # y = x + sum_i (A_i x + t_i - x): add the displacements, not the matrices
+            identity = torch.eye(self.ndim, self.ndim + 1, device=self.device)
+            mat = identity.unsqueeze(0)
+            for transform in transforms:
+                mat = mat + (as_homogeneous_matrix(transform.tensor()) - identity)
             return mat
         return self.disp()
 
